@@ -80,7 +80,9 @@ func (r *dataReader) Read(b []byte) (n int, err error) {
 		stateEOF              // reached .\r\n end marker line
 	)
 
-	if r.limited {
+	if r.limited && r.state != stateEOF {
+		// (A reader that has reported the end of the message keeps doing so:
+		// the budget is not consulted again.)
 		if r.n <= 0 {
 			// The budget is used up: only the end marker may follow. A
 			// message of exactly the maximum size is not too large.
